@@ -216,5 +216,7 @@ def run(col, configs, tier):
         guarded(col, rule_parse_specials, facts)
         guarded(col, rule_write_specials, facts)
         guarded(col, rule_special_classification, facts)
+        from rules import extra as X2
+        guarded(col, X2.rule_overflow_check_unconditional, facts)
         for crate in ("lexical_write_float", "lexical_parse_float"):
             guarded(col, O.rule_options_builder, facts, crate)
